@@ -364,12 +364,23 @@ func genPoss(r *core.Rand) gPoss {
 	if n := lit(p.Name, 12); n != p.Name && n[0] != '.' && n[0] != '-' {
 		p.Name = n
 	}
+	// tokens of exactly 16*k (+-1) bytes: the sizes at which small fixed buffers fill up
+	exact := func(seed string) string {
+		n := []int{15, 16, 17, 31, 32, 33, 47, 48, 49, 63, 64, 65, 95, 96, 97, 127, 128, 129, 191, 192, 255, 256, 257, 511, 512, 1023, 1024, 1025}[r.Intn(28)]
+		return r.Str("abcxyz0123456789", 1) + r.Str("abcxyz0123456789+-.", n-1)
+	}
+	if r.Chance(1, 40) {
+		p.Name = exact(p.Name)
+	}
 	if r.Chance(1, 4) {
 		p.Qual = r.Pick([]string{"any", "native", "amd64", "all", "armhf", "linux-any"})
 		if wide && r.Bool() {
 			p.Qual = wideTok(r, r.Intn(6), "")
 		}
 		p.Qual = lit(p.Qual, 10)
+		if r.Chance(1, 60) {
+			p.Qual = exact(p.Qual)
+		}
 	}
 	if r.Chance(1, 2) {
 		p.Op = r.Pick(depOps)
@@ -396,7 +407,17 @@ func genPoss(r *core.Rand) gPoss {
 			p.Archs = append(p.Archs, a)
 		}
 	}
-	for k := r.Intn(3); r.Chance(1, 3) && k > 0; k-- {
+	groups := r.Intn(3)
+	if r.Chance(1, 60) {
+		groups = r.Range(9, 20) // more clauses on one name than any small-sort threshold
+		if p.Op == "" {
+			p.Op, p.Num = ">=", "1.0"
+		}
+		if len(p.Archs) == 0 && r.Bool() {
+			p.Archs = []string{"amd64", "i386"}
+		}
+	}
+	for k := groups; (groups > 3 || r.Chance(1, 3)) && k > 0; k-- {
 		var set []gStage
 		for i := r.Range(1, 3); i > 0; i-- {
 			nm := r.Pick(profNames)
@@ -404,6 +425,11 @@ func genPoss(r *core.Rand) gPoss {
 				nm = wideTok(r, r.Intn(8), "")
 			}
 			nm = lit(nm, 5)
+			if groups > 3 {
+				nm = fmt.Sprintf("p%d", k) // distinct groups: a permutation shows
+			} else if r.Chance(1, 60) {
+				nm = exact(nm)
+			}
 			set = append(set, gStage{Not: r.Bool(), Name: nm})
 		}
 		p.Stages = append(p.Stages, set)
@@ -671,6 +697,16 @@ func streamDepparse(g *core.G) {
 			g.Emit("law-depast", core.Hex(s), core.Hex(astDump(ast)))
 		}
 	}
+	// a field of more than a MiB, compactly written (its canonical rendering is a quarter longer)
+	{
+		var b strings.Builder
+		for b.Len() < 1100000 {
+			b.WriteString(r.Pick([]string{"liba,", "libb|libc(>=1),", "x[amd64],", "y<cross>,"}))
+		}
+		b.WriteString("end")
+		// (implementation alone: the executable model is quadratic on a field of this size)
+		g.Emit("law-deprt", core.Hex(b.String()))
+	}
 	n := g.N(3000, 150000)
 	for i := 0; i < n; i++ {
 		ast := genDepAST(r)
@@ -698,7 +734,7 @@ func streamDepparse(g *core.G) {
 var archWords = []string{"gnu", "musl", "uclibc", "gnueabi", "gnueabihf", "musleabihf", "gnuabi64", "gnuabin32", "gnuspe", "gnux32", "gnulp", "eabi", "eabihf", "bsd", "base",
 	"linux", "kfreebsd", "knetbsd", "kopensolaris", "hurd", "darwin", "freebsd", "netbsd", "openbsd", "dragonflybsd", "aix", "solaris", "mint", "nto", "freertos", "interix", "uclinux", "none",
 	"amd64", "i386", "arm", "arm64", "armel", "armhf", "armeb", "armv6k", "armv7r", "avr32", "alpha", "hppa", "ia64", "m32r", "m68k", "mips", "mipsel", "mips64", "mips64el", "mipsr6",
-	"nios2", "or1k", "powerpc", "powerpcspe", "ppc64", "ppc64el", "riscv64", "s390", "s390x", "sh3", "sh4", "sparc", "sparc64", "ultrasparc", "tilegx", "x32", "loong64", "arc", "any"}
+	"i486", "i586", "i686", "x86_64", "aarch64", "armv7l", "armv6l", "ppc64le", "mips64r6", "nios2", "or1k", "powerpc", "powerpcspe", "ppc64", "ppc64el", "riscv64", "s390", "s390x", "sh3", "sh4", "sparc", "sparc64", "ultrasparc", "tilegx", "x32", "loong64", "arc", "any"}
 
 func isWord(s string) bool {
 	for i := 0; i < len(s); i++ {
@@ -810,6 +846,29 @@ func streamArchsem(g *core.G) {
 		for _, b := range archs {
 			g.Emit("archis", append(enc(a), enc(b)...)...)
 		}
+	}
+	// real names: every pair of CPU (and OS, ABI) words of dpkg's tables and of the GNU triplets
+	// that resemble them (i386 / i486 / i586 / i686, amd64 / x86_64, arm64 / aarch64): different
+	// names are different architectures, whatever they would mean to config.guess
+	for _, w1 := range archWords {
+		for k := 0; k < 6; k++ {
+			w2 := archWords[r.Intn(len(archWords))]
+			a := dependency.Arch{ABI: "gnu", OS: "linux", CPU: w1}
+			b := dependency.Arch{ABI: r.Pick([]string{"gnu", "any"}), OS: r.Pick([]string{"linux", "any"}), CPU: w2}
+			g.Emit("archis", append(enc(a), enc(b)...)...)
+			g.Emit("archis", append(enc(b), enc(a)...)...)
+			g.Emit("archmatch", append([]string{b01(r.Bool()), "2"}, append(append(enc(b), enc(dependency.Arch{ABI: "gnu", OS: "linux", CPU: "amd64"})...), enc(a)...)...)...)
+		}
+	}
+	for _, pr := range [][2]string{{"i386", "i486"}, {"i386", "i586"}, {"i386", "i686"}, {"i586", "i686"}, {"amd64", "x86_64"}, {"arm64", "aarch64"}, {"armhf", "armv7l"}, {"ppc64el", "ppc64le"}, {"mipsel", "mips"}} {
+		for _, abi := range []string{"gnu", "any"} {
+			a := dependency.Arch{ABI: "gnu", OS: "linux", CPU: pr[0]}
+			b := dependency.Arch{ABI: abi, OS: "linux", CPU: pr[1]}
+			g.Emit("archis", append(enc(a), enc(b)...)...)
+			g.Emit("archis", append(enc(b), enc(a)...)...)
+		}
+		g.Emit("possis", core.Hex("foo ["+pr[0]+" sparc] | bar"), core.Hex(pr[1]))
+		g.Emit("possis", core.Hex("foo [!"+pr[1]+"] | bar"), core.Hex(pr[0]))
 	}
 	for i := g.N(4000, 100000); i > 0; i-- {
 		n := r.Intn(4)
